@@ -3450,7 +3450,8 @@ def fnv_halves(text: str) -> Tuple[int, int]:
 
 def check_C16(tier: str, seed: int) -> int:
     v = Verdict("C16", tier, seed, "proof")
-    ob = vplib.check_obligations("C16", expected=["C16_interleave", "C16_schedule_independent", "C16_history_pointwise"])
+    ob = vplib.check_obligations("C16", expected=["C16_interleave", "C16_schedule_independent", "C16_history_pointwise", "C16_history_permutation",
+                                                  "C16_finished_results", "C16_interleave_total", "C16_finished_stable"])
     vplib.build_harness(["release", "dev"])
     w = Work("C16")
     try:
